@@ -5,6 +5,7 @@
 package txn
 
 import (
+	"database/sql"
 	"fmt"
 	"hash/fnv"
 	"net/http"
@@ -670,16 +671,52 @@ func (w *world) doDeliver(tr *vhlib.Trace, p vhlib.ParsedLine) {
 	tr.Line(p.Raw, fmt.Sprintf("want=%s got=%s cache=%s", vhlib.FmtList(want), vhlib.FmtList(got), plus(w.main.cacheDiff(w.b.liveIDs()))))
 }
 
-func (w *world) restartSide(sd *side, abrupt bool) (*side, []string) {
+// rollbackVersion: the closed database gets `mig` pending migrations: db_version is set back by mig, so that
+// the next OpenDatabase runs the last `mig` migrations again. Only migrations that are re-runnable on the
+// current schema qualify (persist/sqlite/migrations.go): 39 (CREATE INDEX IF NOT EXISTS), 38, 37, 36
+// (recalcContractMetrics) and 35 (trim the port from the net address); 34 and older DROP / ALTER / CREATE
+// tables unconditionally.
+const maxPendingMigrations = 5
+
+func rollbackVersion(path string, mig int) error {
+	db, err := sql.Open("sqlite3", "file:"+path+"?_busy_timeout=5000&_journal_mode=WAL")
+	if err != nil {
+		return err
+	}
+	defer db.Close()
+	var v int64
+	if err := db.QueryRow(`SELECT db_version FROM global_settings`).Scan(&v); err != nil {
+		return err
+	}
+	_, err = db.Exec(`UPDATE global_settings SET db_version=?`, v-int64(mig))
+	return err
+}
+
+func (w *world) restartSide(sd *side, abrupt bool) (*side, []string) { return w.restartSideMig(sd, abrupt, 0) }
+
+func (w *world) restartSideMig(sd *side, abrupt bool, mig int) (*side, []string) {
 	var alters []string
 	if !abrupt {
 		dir, mgr, vm := sd.dir, sd.mgr != nil, sd.withVM
 		sd.close()
+		if mig > 0 {
+			if err := rollbackVersion(filepath.Join(dir, "hostd.sqlite3"), mig); err != nil {
+				w.t.Fatal("rollback version:", err)
+			}
+		}
 		ro := &side{t: w.t, dir: dir, dbPath: filepath.Join(dir, "hostd.sqlite3")}
 		d1, _ := tableDump(ro.roDB())
 		ro.close()
 		ns := openSide(w.t, dir, mgr, vm)
 		d2, _ := tableDump(ns.roDB())
+		if mig > 0 {
+			// the version row moves forward again and the recalculation writes new stat rows (same values, new
+			// time buckets): what the migrations did to the observable state is what the getter comparison shows
+			delete(d1, "global_settings")
+			delete(d2, "global_settings")
+			delete(d1, "host_stats")
+			delete(d2, "host_stats")
+		}
 		alters = dumpDiff(d1, d2)
 		return ns, alters
 	}
@@ -744,8 +781,12 @@ func (w *world) doRestart(tr *vhlib.Trace, p vhlib.ParsedLine) {
 	expect := matchCount(w.hookInfos(w.main), scope)
 	dlvb := w.deliver(w.main, scope, expect)
 	var alters []string
-	w.main, alters = w.restartSide(w.main, abrupt)
-	w.twin, _ = w.restartSide(w.twin, false)
+	mig := p.Int("mig")
+	if abrupt || mig > maxPendingMigrations {
+		mig = 0
+	}
+	w.main, alters = w.restartSideMig(w.main, abrupt, mig)
+	w.twin, _ = w.restartSideMig(w.twin, false, mig)
 	after := w.observe(w.main)
 	dlva := w.deliver(w.main, scope, expect)
 	var parts []string
